@@ -39,6 +39,10 @@ type (
 	NS0 []*T0
 	// NS1 is a named slice without methods.
 	NS1 []*T1
+
+	// Huge is an array type of size 0 whose length is such that arrays of anything with a size
+	// cannot exist (reflect.ArrayOf(len, <pointer>) would exceed the address space).
+	Huge [1 << 61]struct{}
 )
 
 func (*T0) MI0() {}
@@ -133,6 +137,9 @@ var byID = map[int]reflect.Type{
 	65: reflect.TypeOf([]NS1(nil)),
 
 	70: reflect.TypeOf(int(0)),
+
+	80: reflect.TypeOf([2]*T0{}),
+	81: reflect.TypeOf(Huge{}),
 }
 
 var (
@@ -251,6 +258,8 @@ var expected = func() []TypeInfo {
 	add(64, "slice", 50, false)
 	add(65, "slice", 51, false)
 	add(70, "other", -1, false)
+	add(80, "other", -1, false)
+	add(81, "other", -1, false)
 	return e
 }()
 
